@@ -10,6 +10,7 @@ from .state import (SV, State, const_sv, truthy, shape, field_type, KIND, CLS, c
                     new_exception, new_instance, new_list_from_seq, alloc, elem_type, int_of, str_of, val_of,
                     GHOSTS)
 from .execcore import Outcome, Exc, SeqHolder
+from .state import merge_states
 from .execexpr import ExecExpr, compat
 from . import spec as SP
 
@@ -96,7 +97,7 @@ class Exec(ExecExpr):
                     ns, rs = self.call_function(c2, callee[1], args, kwargs, n)
                 out.extend(ns)
                 raises.extend(rs)
-        return out, raises
+        return merge_states(out), raises
 
     def strip_none(self, st, base, raises):
         """receiver of a method call: None -> AttributeError"""
@@ -266,33 +267,45 @@ class Exec(ExecExpr):
             self.oblige(st, sev.bool(text), 'pre[%s]@call#%d(%s)' % (lab, k, short), 'pre-of-callee')
         old = st.copy()
         normals, raises = [], []
-        # exceptional outcomes (may-raise: one fork per clause, under its condition)
-        for exname, rspec in c.raises.items():
-            when = rspec if isinstance(rspec, str) else rspec.get('when', 'True')
-            exens = [] if isinstance(rspec, str) else rspec.get('ensures', [])
-            clsq = front.resolve_exc_name(modname, exname)
+        # exceptional outcome (may-raise): ONE outcome with a symbolic class, constrained by the disjunction of the
+        # raises clauses (class in the clause's set and the clause's condition); handlers fork on the class only
+        # where they distinguish it
+        rids = SP.raise_ids(c, modname)
+        if c.raises:
             e = st.copy()
-            cond = SP.SpecEval(old, env, modname, extra=lets).bool(when)
-            e.assume(cond)
-            if not self.feasible(e):
-                continue
-            self.havoc(e, c, env, old, lets, modname)
-            for lab, text in c.labelled(exens):
-                e.assume(SP.SpecEval(e, env, modname, old=old, extra=lets).bool(text))
-            ids = front.subclass_ids(clsq)
-            a = alloc(e, K_INST)
-            obj = SV(VRef(a), Ty.TInst(clsq))
-            if len(ids) == 1:
-                e.assume(CLS(a) == ids[0])
-                exc = Exc(clsq, obj)
-            else:
-                cid = fresh('exccls', IntS)
-                e.assume(Or(*[cid == i for i in ids]))
+            cid = fresh('exccls', IntS)
+            alts, concrete = [], set()
+            for exname, rspec in c.raises.items():
+                when = rspec if isinstance(rspec, str) else rspec.get('when', 'True')
+                clsq, ids = rids[exname]
+                cond = SP.SpecEval(old, env, modname, extra=lets).bool(when)
+                if z3.is_false(cond) or not ids:
+                    continue
+                alts.append(And(Or(*[cid == i for i in ids]), cond))
+                concrete |= set(ids)
+            e.assume(Or(*alts) if alts else FALSE)
+            if alts and self.feasible(e):
+                self.havoc(e, c, env, old, lets, modname)
+                for exname, rspec in c.raises.items():
+                    if isinstance(rspec, dict):
+                        clsq, ids = rids[exname]
+                        m = Or(*[cid == i for i in ids])
+                        for lab, text in c.labelled(rspec.get('ensures', [])):
+                            e.assume(Implies(m, SP.SpecEval(e, env, modname, old=old, extra=lets).bool(text)))
+                a = alloc(e, K_INST)
                 e.assume(CLS(a) == cid)
-                exc = Exc(clsq, obj, cid=cid, exact=False)
-            e.trace.append('call#%d(%s) raises %s' % (k, short, exname))
-            e.notes['calls'] = e.notes.get('calls', ()) + ((c.qual, 'raise', clsq, exc.cid),)
-            raises.append(Outcome('raise', e, exc=exc, site='call#%d' % k))
+                if len(concrete) == 1:
+                    only = front.id_cls(list(concrete)[0])
+                    obj = SV(VRef(a), Ty.TInst(only))
+                    e.assume(cid == list(concrete)[0])
+                    exc = Exc(only, obj)
+                else:
+                    # least common registered base, for reporting only
+                    obj = SV(VRef(a), Ty.ANY)
+                    exc = Exc('builtins:BaseException', obj, cid=cid, exact=False)
+                e.trace.append('call#%d(%s) raises' % (k, short))
+                e.notes['calls'] = e.notes.get('calls', ()) + ((c.qual, 'raise', exc.clsq, exc.cid),)
+                raises.append(Outcome('raise', e, exc=exc, site='call#%d' % k))
         # normal outcome
         n = st
         self.havoc(n, c, env, old, lets, modname)
